@@ -16,6 +16,7 @@ BUDGET = {
     "quick": {"workers": 16, "cases": 600, "secs": 60, "min_cases": 4800},
     "thorough": {"workers": 16, "rounds": 4, "cases": 1600, "secs": 420, "min_cases": 51200},
 }
+SIBLINGS = True  # consecutive cases with identical structure and different gate types
 ANCHORS = ["tx:ternary"]
 
 
